@@ -324,6 +324,8 @@ ATTACKS = {
     "set_python_loader_again": "local ok = pcall(_lua_set_python_loader, function(n) return 'return io' end); return ok and 'REPLACED loader' or 'no'",
     "new_loader_host_env": "local ok, r = pcall(function() local fn = _new_loader('_sandbox_phase1', {}); return fn end); return 'no'",
     "os_time_only": "return (os.getenv or os.remove or os.rename or os.exit or os.tmpname) and 'GOT os.*' or 'no'",
+    "userdata_metatable_writable": "local mt = getmetatable(mw_python_get_page_info); if type(mt) ~= 'table' then return 'no' end local ok = pcall(function() mt.__c06probe = 1 end); local w = ok and mt.__c06probe == 1; if w then mt.__c06probe = nil end return w and 'GOT writable metatable shared by all Python objects' or 'no'",
+    "userdata_gc_callable": "local mt = getmetatable(frame.preprocess); return (type(mt) == 'table' and type(mt.__gc) == 'function') and 'GOT __gc of Python objects' or 'no'",
     "write_file_via_io": "local ok, r = pcall(function() local io = require('io'); local f = io.open('__CANARY_DIR__/written', 'w'); f:write('x'); f:close(); return 'WROTE' end); return ok and r or 'no'",
 }
 
